@@ -129,6 +129,11 @@ class SymND:
     def __neg__(self):
         return self._new(tm.neg(self.term))
 
+    def __abs__(self):
+        if self.nd == 1:
+            return SymND(tm.fn("abs", self.term, props=("diag", "real", "herm", "nonneg")), 1, False, self.lazy, ("nonneg",))
+        raise Unsupported("abs of a matrix")
+
     def __pow__(self, e):
         if self.nd == 1:
             if type(e) is PNum:
@@ -160,7 +165,7 @@ class SymND:
                 if r.nd == 1 and ax == 1:
                     return Col(r)
                 raise Unsupported("newaxis")
-            if type(k) is slice and k.start is None and k.step is None:
+            if type(k) is slice and k.start is None and k.step is None and not (type(k.stop) is int and k.stop < 0):
                 r = r._prefix(ax, k.stop)
             elif isinstance(k, Mask):
                 r = r._mask(ax, k)
